@@ -61,6 +61,28 @@ def translate(client, server):
     tgt = re.search(r"if fd != (\d+) \{\s*dup2\(fd, (\d+)\);", ve)
     if not tgt or tgt.group(1) != tgt.group(2):
         raise Refuse("varlink_exec: descriptor passing not recognised")
+    # listen(): the mode of the listening descriptor when the accept loop starts, and when accept() waits in select
+    lb = fn_body(s, r"pub fn listen<S: \?Sized \+ AsRef<str>, H: crate::ConnectionHandler \+ Send \+ Sync \+ 'static>\(\s*handler: H,\s*address: &S,\s*listen_config: &ListenConfig,\s*\) -> Result<\(\)> \{")
+    pro = lb[:lb.find("loop {")] if "loop {" in lb else None
+    if pro is None or not re.search(r"let listener = Listener::new\(address\)\?;", pro):
+        raise Refuse("listen: prologue not recognised")
+    modes = re.findall(r"listener\.set_nonblocking\((true|false)\)\?;", pro)
+    if len(modes) > 1 or "true" in modes or len(re.findall(r"set_nonblocking", lb)) != len(modes):
+        raise Refuse("listen: the listener's blocking mode is set in an unrecognised way")
+    forces = modes == ["false"]
+    um = re.search(r"#\[cfg\(unix\)\]\s*pub fn accept\(&self, timeout: u64\) -> Result<Box<dyn Stream>> \{", s)
+    if not um:
+        raise Refuse("Listener::accept (unix) not found")
+    from wire import balanced
+    ab = s[um.end() - 1:balanced(s, um.end() - 1)]
+    g = re.search(r"if timeout > 0 \{", ab)
+    if not g:
+        raise Refuse("Listener::accept: timeout guard not recognised")
+    g_end = balanced(ab, g.end() - 1)
+    if "select(" not in ab[g.end():g_end] or "select(" in ab[:g.start()] or "select(" in ab[g_end:] or ".accept()" in ab[:g_end]:
+        raise Refuse("Listener::accept: select / accept placement not recognised")
+    if not re.search(r"if !FD_ISSET\(fd, readfs\.as_mut_ptr\(\)\) \{\s*return Err\(context!\(ErrorKind::Timeout\)\);", ab[g.end():g_end]):
+        raise Refuse("Listener::accept: timeout result not recognised")
     out = ["(* GENERATED by tr/addr.py from varlink/src/client.rs and server.rs -- do not edit *)",
            "From Coq Require Import List NArith.", "Import ListNotations.",
            "Definition client_table : list (list N * bool) := [%s]." % "; ".join("(%s, %s)" % (cb(p), "true" if f else "false") for p, f in ct),
@@ -71,7 +93,9 @@ def translate(client, server):
            "Definition exec_listen_fds : list N := %s." % cb(envs["LISTEN_FDS"]),
            "Definition exec_listen_fdnames : list N := %s." % cb(envs["LISTEN_FDNAMES"]),
            "Definition exec_passes_fd : nat := %s." % tgt.group(2),
-           "Definition exec_listen_pid_is_own : bool := true."]
+           "Definition exec_listen_pid_is_own : bool := true.",
+           "Definition listen_forces_blocking : bool := %s." % ("true" if forces else "false"),
+           "Definition accept_selects_only_with_timeout : bool := true."]
     return "\n".join(out) + "\n"
 
 
